@@ -466,4 +466,28 @@ theorem relEntropyGo_spec (p q : List ℝ) (kl : ℝ) :
         · simp only [hex, ↓reduceIte, klTerms, List.zip_cons_cons, List.map_cons, List.sum_cons, ha]
           congr 1; ring
 
+/-! ### integer sums (no wrap-around: the C `int` overflow is undefined behaviour, the generators stay in range) -/
+theorem isum_eq (v : List Int) : isum v = v.sum := by
+  unfold isum
+  have : ∀ (l : List Int) (s : Int), l.foldl (· + ·) s = s + l.sum := by
+    intro l; induction l with
+    | nil => simp
+    | cons x xs ih => intro s; rw [List.foldl_cons, ih, List.sum_cons]; ring
+  rw [this]; simp
+
+theorem idot_eq (v w : List Int) : idot v w = (List.zipWith (· * ·) v w).sum := by
+  unfold idot
+  have : ∀ (l : List Int) (s : Int), l.foldl (· + ·) s = s + l.sum := by
+    intro l; induction l with
+    | nil => simp
+    | cons x xs ih => intro s; rw [List.foldl_cons, ih, List.sum_cons]; ring
+  rw [this]; simp
+
+/-! ### element-wise updates -/
+theorem scale_eq (v : List ℝ) (s : ℝ) : scale v s = v.map (· * s) := rfl
+theorem increment_eq (v : List ℝ) (x : ℝ) : increment v x = v.map (· + x) := rfl
+theorem add_eq (v w : List ℝ) : add v w = List.zipWith (· + ·) v w := rfl
+theorem addScaled_eq (v w : List ℝ) (a : ℝ) : addScaled v w a = List.zipWith (fun x y => x + y * a) v w := rfl
+theorem reverse_eq {α : Type} (v : List α) : reverse v = v.reverse := rfl
+
 end EaselModel.Vec
